@@ -75,6 +75,22 @@ class C14(HistoryProp):
     ref_steps = 3000
 
     def decode(self, src):
+        case = self.decode_d1(src)
+        shape = src.n(6)
+        if shape in (4, 5):
+            # the same schedule on a predicate without arguments (d) or with two arguments (d(T,T)) instead of d/1
+            def m(t):
+                if isinstance(t, (list, tuple)) and len(t) == 3 and t[0] == 'f' and t[1] == 'd' and len(t[2]) == 1:
+                    return ('a', 'd') if shape == 4 else ('f', 'd', (m(t[2][0]), m(t[2][0])))
+                if isinstance(t, tuple):
+                    return tuple(m(x) for x in t)
+                if isinstance(t, list):
+                    return [m(x) for x in t]
+                return t
+            case = {'ops': [m(op) for op in case['ops']]}
+        return case
+
+    def decode_d1(self, src):
         ops = [['engine', E]]
         nfacts = 1 + src.n(4) if src.n(4) else 8 + src.n(6)        # sometimes more than eight facts (with duplicates)
         for _ in range(nfacts):
